@@ -598,14 +598,16 @@ fn check_churn(case: &ChurnCase) -> Case {
 
 #[derive(Debug, Clone, Serialize, Deserialize)]
 struct ResolveCase {
-    /// per waiter: (drop after ms, whether the responder picks the request up before that)
-    waiters: Vec<(u32, bool)>,
+    /// per waiter: (drop after ms, whether the responder picks the request up before that,
+    /// whether the answer is deposited right before the waiter is dropped - i.e. the waiter
+    /// goes away with its answer sitting in the slot, unconsumed)
+    waiters: Vec<(u32, bool, bool)>,
     seed: u32,
 }
 
 fn resolve_strategy() -> impl Strategy<Value = ResolveCase> {
     (
-        prop::collection::vec((prop_oneof![0u32..50, 50u32..3_000, 3_000u32..40_000], any::<bool>()), 1..5),
+        prop::collection::vec((prop_oneof![0u32..50, 50u32..3_000, 3_000u32..40_000], any::<bool>(), any::<bool>()), 1..5),
         any::<u32>(),
     )
         .prop_map(|(waiters, seed)| ResolveCase { waiters, seed })
@@ -638,7 +640,9 @@ fn check_resolve(case: &ResolveCase) -> Case {
     let pick_up = Cell::new(false);
     let answer = Cell::new(false);
     let picked = Cell::new(0u32);
+    let picked_name: RefCell<Option<String>> = RefCell::new(None);
     let final_ok: RefCell<Option<bool>> = RefCell::new(None);
+    let mut dropped_answered = 0;
     let mut dropped_in_flight = 0;
     let mut dropped_requested = 0;
     {
@@ -657,7 +661,7 @@ fn check_resolve(case: &ResolveCase) -> Case {
         });
         // the harness plays the mDNS responder
         {
-            let (m, pu, an, pk) = (&ctrl, &pick_up, &answer, &picked);
+            let (m, pu, an, pk, pn) = (&ctrl, &pick_up, &answer, &picked, &picked_name);
             ex.spawn("mdns", async move {
                 loop {
                     while !pu.get() {
@@ -665,12 +669,13 @@ fn check_resolve(case: &ResolveCase) -> Case {
                     }
                     let service = m.transport().wait_mdns_resolve_request().await;
                     pk.set(pk.get() + 1);
-                    if !an.get() {
-                        continue;
-                    }
                     let MatterRemoteService::Operational { .. } = &service else { continue };
                     let mut name = heapless::String::<128>::new();
                     service.instance_name(&mut name);
+                    *pn.borrow_mut() = Some(name.as_str().to_string());
+                    if !an.get() {
+                        continue;
+                    }
                     let Address::Udp(SocketAddr::V6(sock)) = node_addr(0) else { continue };
                     m.transport().try_deposit_mdns_resolve(
                         &MdnsRemoteService {
@@ -685,9 +690,10 @@ fn check_resolve(case: &ResolveCase) -> Case {
                 }
             });
         }
-        for (i, (ms, pickup)) in case.waiters.iter().enumerate() {
+        for (i, (ms, pickup, deposit)) in case.waiters.iter().enumerate() {
             pick_up.set(*pickup);
             answer.set(false);
+            *picked_name.borrow_mut() = None;
             let before = picked.get();
             let (m, c) = (&ctrl, &cc);
             let t = ex.spawn(&format!("waiter{i}"), async move {
@@ -695,7 +701,23 @@ fn check_resolve(case: &ResolveCase) -> Case {
             });
             ex.run_for(*ms as u64 * MS);
             if !ex.is_done(t) {
-                if picked.get() > before {
+                let name = picked_name.borrow().clone();
+                if let (true, true, Some(name)) = (picked.get() > before, *deposit, name) {
+                    // the answer arrives - and the waiter is dropped before it is polled again
+                    if let Address::Udp(SocketAddr::V6(sock)) = node_addr(0) {
+                        ctrl.transport().try_deposit_mdns_resolve(
+                            &MdnsRemoteService {
+                                instance_name: DottedName(name.as_str()),
+                                port: Some(sock.port()),
+                                addrs: core::iter::once(IpAddr::V6(*sock.ip())),
+                                txt: core::iter::empty::<(&str, &str)>(),
+                                scope_id: 0,
+                            },
+                            &[],
+                        );
+                        dropped_answered += 1;
+                    }
+                } else if picked.get() > before {
                     dropped_in_flight += 1;
                 } else {
                     dropped_requested += 1;
@@ -721,13 +743,14 @@ fn check_resolve(case: &ResolveCase) -> Case {
     }
     let fin = *final_ok.borrow();
     match fin {
-        Some(true) => Case::pass(dropped_in_flight + dropped_requested > 0)
+        Some(true) => Case::pass(dropped_in_flight + dropped_requested + dropped_answered > 0)
+            .label(format!("dropped-answered-{dropped_answered}"))
             .label(format!("dropped-requested-{dropped_requested}"))
             .label(format!("dropped-inflight-{dropped_in_flight}")),
         other => Case::fail(
             "rendezvous:not-released",
             format!(
-                "after {dropped_requested} waiter(s) dropped in state Requested and {dropped_in_flight} in state InFlight, a new Exchange::initiate was not served within 120 s (result {other:?})"
+                "after {dropped_requested} waiter(s) dropped in state Requested, {dropped_in_flight} in state InFlight and {dropped_answered} with the answer deposited but not consumed, a new Exchange::initiate was not served within 120 s (result {other:?})"
             ),
         ),
     }
